@@ -3,7 +3,7 @@
 # Evidence / replay files of this run go to a scratch verif dir, so /verif/evidence keeps describing the unchanged tree.
 ID=$1; D=/verif/seeded/$ID
 PROP=${2:-$(python3 -c "import json;print(json.load(open('$D/meta.json'))['property'])")}
-T=$(mktemp -d /tmp/lhv-seedrun.XXXXXX); cp /verif/known_findings.json /verif/properties.jsonl $T/; cp -r /verif/contracts $T/contracts
+T=$(mktemp -d /tmp/lhv-seedrun.XXXXXX); cp /verif/known_findings.json /verif/properties.jsonl $T/; cp -r /verif/contracts $T/contracts; cp -r /verif/bounded $T/bounded
 cd /repo && git apply $D/patch.diff || { echo "apply failed"; rm -rf $T; exit 2; }
 cd /verif && ./bin/lhv check --verif $T --property $PROP 2>&1 | grep -E "VIOLATION|KNOWN|SUMMARY|ENGINE" | cut -c1-260
 cd /repo && git apply -R $D/patch.diff
